@@ -41,15 +41,19 @@ func c18StreamsBuild() map[string]string {
 	f40 := `{"parameters":{"k":"` + strings.Repeat("v", 18) + `"}}`
 	mk := func(n int) string { return `{"p":"` + strings.Repeat("z", n-8) + `"}` }
 	return map[string]string{
-		"p0":        "",
-		"p1":        "R",
-		"p7":        "RAWDATA",
-		"pnul":      "A\x00B",
-		"f1p7":      "{}\x00RAWDATA",
-		"f1pnul":    "{}\x00A\x00B",
-		"f2p7":      "{}\x00" + f40 + "\x00RAWDATA",
-		"f2p0":      "{}\x00" + f40 + "\x00",
-		"f1big":     "{}\x00" + big,
+		"p0":     "",
+		"p1":     "R",
+		"p7":     "RAWDATA",
+		"pnul":   "A\x00B",
+		"f1p7":   "{}\x00RAWDATA",
+		"f1pnul": "{}\x00A\x00B",
+		"f2p7":   "{}\x00" + f40 + "\x00RAWDATA",
+		"f2p0":   "{}\x00" + f40 + "\x00",
+		"f1big":  "{}\x00" + big,
+		// an upgraded protocol whose first bytes are line ends, blanks or a second NUL (nothing behind a frame is padding)
+		"f1lf":      "{}\x00\nRAW\n",
+		"f1crlf":    "{}\x00\r\n\r\nRAW",
+		"f1sp":      "{}\x00 \t{}\x00\x00R",
 		"f4095p7":   mk(4095) + "\x00RAWDATA",
 		"f4096p7":   mk(4096) + "\x00RAWDATA",
 		"f4097p7":   mk(4097) + "\x00RAWDATA",
@@ -73,7 +77,7 @@ func c18Huge() string {
 	return c18HugeCache
 }
 
-var c18StreamOrder = []string{"p0", "p1", "p7", "pnul", "f1p7", "f1pnul", "f2p7", "f2p0", "f1big", "f4095p7", "f4096p7", "f4097p7", "f4095f2p1"}
+var c18StreamOrder = []string{"p0", "p1", "p7", "pnul", "f1p7", "f1pnul", "f2p7", "f2p0", "f1big", "f4095p7", "f4096p7", "f4097p7", "f4095f2p1", "f1lf", "f1crlf", "f1sp"}
 
 type c18State struct {
 	stream string
